@@ -2,7 +2,7 @@
     Property theorems only.  ISIMIP step 6: hand model Model/Isimip.v over the REGENERATED masks (K6);
     QDM / CDFt SSR / LinearScaling / DeltaChange: definitions REGENERATED from the source (GenScalars). *)
 From Coq Require Import QArith ZArith List Bool String.
-From IV Require Import QL NP Dist Ecdf GenUtils GenScalars GenPrecip GenIsimip Isimip C16_compose C10_proofs C10_precip XQ ConfigBase GenConfig C10_isimip_table SDM SDM_proofs IsimipStep5 IsimipStep5_proofs.
+From IV Require Import QL NP Dist Ecdf GenUtils GenScalars GenPrecip GenIsimip Isimip C16_compose C10_proofs C10_precip XQ ConfigBase GenConfig C10_isimip_table SDM SDM_proofs IsimipStep5 IsimipStep5_proofs IsimipStep1 IsimipStep1_proofs.
 Import ListNotations.
 Open Scope Q_scope.
 
@@ -127,3 +127,64 @@ Print Assumptions C10_step5_bounded_in_bounds.
 Theorem C10_step5_multiplicative_nonneg : forall em im a b oh ch cf, Forall (fun v => 0 <= v) oh -> Forall (fun v => 0 <= v) (step5 TMultiplicative em im a b oh ch cf).
 Proof. exact step5_multiplicative_nonneg. Qed.
 Print Assumptions C10_step5_multiplicative_nonneg.
+
+(** rsds, ISIMIP steps 1 and 8 (hand model Model/IsimipStep1.v, correspondence K18).
+    The annual cycle of upper bounds — running mean of the running maximum of the multi-year daily maxima,
+    wrap-around windows of ANY size over ANY set of days of the year — is non-negative for non-negative data *)
+Theorem C10_rsds_cycle_nonneg : forall size days vals y, (0 < size)%Z -> (forall v, In v vals -> 0 <= v) ->
+  In y (annual_cycle size days vals) -> 0 <= y.
+Proof. exact annual_cycle_nonneg. Qed.
+Print Assumptions C10_rsds_cycle_nonneg.
+
+(** for odd window sizes the cycle entry of a day dominates every value observed on that day ... *)
+Theorem C10_rsds_cycle_dominates : forall size days vals i v, (0 < size)%Z -> (size mod 2 = 1)%Z ->
+  (i < List.length (NP.unique days))%nat -> In (nth i (NP.unique days) 0%Z, v) (combine days vals) ->
+  v <= nth i (annual_cycle size days vals) 0.
+Proof. exact cycle_dominates_values. Qed.
+Print Assumptions C10_rsds_cycle_dominates.
+
+(** ... so step 1 scales non-negative data into [0, 1], by day-1 indexing (all 366 days present) or by search *)
+Theorem C10_rsds_step1_scales_into_unit_interval : forall size days vals l,
+  (0 < size)%Z -> (size mod 2 = 1)%Z -> (forall x, In x days -> 1 <= x <= 366)%Z ->
+  (forall v, In v vals -> 0 <= v) ->
+  step1_scale vals days (annual_cycle size days vals) (NP.unique days) = Some l ->
+  forall y, In y l -> 0 <= y <= 1.
+Proof. exact step1_scale_in_unit_interval. Qed.
+Print Assumptions C10_rsds_step1_scales_into_unit_interval.
+
+(** the debiased cycle is non-negative in both branches (equal calendars: clipped factor; otherwise day by day) *)
+Theorem C10_rsds_debiased_cycle_nonneg : forall co uo ch uh cf uf y,
+  (forall v, In v co -> 0 <= v) -> (forall v, In v ch -> 0 <= v) -> (forall v, In v cf -> 0 <= v) ->
+  In y (debiased_cycle co uo ch uh cf uf) -> 0 <= y.
+Proof. exact debiased_cycle_nonneg. Qed.
+Print Assumptions C10_rsds_debiased_cycle_nonneg.
+
+(** rsds output is non-negative: whatever non-negative series steps 2-7 hand over, step 8's rescaling by
+    the debiased cycle computed in step 1 from non-negative obs / cm_hist / cm_future is non-negative *)
+Theorem C10_rsds_output_nonneg : forall size days_o obs days_h hist days_f fut x l,
+  (0 < size)%Z ->
+  (forall v, In v obs -> 0 <= v) -> (forall v, In v hist -> 0 <= v) -> (forall v, In v fut -> 0 <= v) ->
+  (forall v, In v x -> 0 <= v) ->
+  step8_rescale x days_f
+    (debiased_cycle (annual_cycle size days_o obs) (NP.unique days_o)
+                    (annual_cycle size days_h hist) (NP.unique days_h)
+                    (annual_cycle size days_f fut) (NP.unique days_f)) (NP.unique days_f) = Some l ->
+  forall y, In y l -> 0 <= y.
+Proof. exact rsds_output_nonneg. Qed.
+Print Assumptions C10_rsds_output_nonneg.
+
+Theorem C10_rsds_hypotheses_satisfiable :
+  step1_scale ex_vals ex_days (annual_cycle 3 ex_days ex_vals) (NP.unique ex_days)
+    = Some [(1 # 2); (5 # 6); (1 # 3); (2 # 3); (1 # 6); 1]
+  /\ exists l, step8_rescale [(1 # 2); 1; 0; (1 # 4); (3 # 4); 1] ex_days
+       (debiased_cycle (annual_cycle 3 ex_days ex_vals) (NP.unique ex_days)
+                       (annual_cycle 3 ex_days ex_vals) (NP.unique ex_days)
+                       (annual_cycle 3 ex_days ex_vals) (NP.unique ex_days)) (NP.unique ex_days) = Some l.
+Proof. exact rsds_example. Qed.
+Print Assumptions C10_rsds_hypotheses_satisfiable.
+
+Theorem C10_rsds_cycle_dominance_needs_odd_size_refuted :
+  exists days vals i v, (i < List.length (NP.unique days))%nat /\ In (nth i (NP.unique days) 0%Z, v) (combine days vals) /\
+    ~ v <= nth i (annual_cycle 2 days vals) 0.
+Proof. exact cycle_dominates_even_refuted. Qed.
+Print Assumptions C10_rsds_cycle_dominance_needs_odd_size_refuted.
